@@ -12,6 +12,20 @@ from ..engines.templates import TOK, parse_parts, show
 from .c19 import clock_summaries, CLOCK_PREFIXES
 
 
+
+def fused_part_sites(note_if: ast.If, result: str | None = None):
+    """Statements that add one formatted part to the note token under construction: `token += f"..."` or `parts.append(f"...")` on a
+    local list that is later joined.  -> [(statement node, JoinedStr)]"""
+    joined = {c.args[0].id for c in ast.walk(note_if) if isinstance(c, ast.Call) and call_method(c)[1] == "join" and c.args and isinstance(c.args[0], ast.Name)}
+    out = []
+    for n in ast.walk(note_if):
+        if isinstance(n, ast.AugAssign) and isinstance(n.value, ast.JoinedStr):
+            out.append((n, n.value))
+        elif isinstance(n, ast.Expr) and isinstance(n.value, ast.Call) and call_method(n.value)[1] == "append" and isinstance(call_method(n.value)[0], ast.Name) \
+                and call_method(n.value)[0].id in joined and n.value.args and isinstance(n.value.args[0], ast.JoinedStr):
+            out.append((n, n.value.args[0]))
+    return out
+
 def block_of(n: ast.AST) -> list[ast.stmt]:
     par = getattr(n, "_parent", None)
     for fld in ("body", "orelse", "finalbody"):
@@ -332,16 +346,15 @@ def _check(ctx: Ctx) -> None:
                 if f:
                     fld_src.setdefault(pr, set()).add(src(f[0]))
     # also fused parts: token += f"..."
-    for n in ast.walk(note_if):
-        if isinstance(n, ast.AugAssign) and isinstance(n.value, ast.JoinedStr):
-            m = None
-            for v in n.value.values:
-                if isinstance(v, ast.FormattedValue):
-                    m = enum_member(v.value, "TokenisationPrefixes")
-                    break
-            f = fields_of(n.value)
-            if m and f:
-                fld_src.setdefault(m, set()).add(src(f[0]))
+    for n, js_ in fused_part_sites(note_if):
+        m = None
+        for v in js_.values:
+            if isinstance(v, ast.FormattedValue):
+                m = enum_member(v.value, "TokenisationPrefixes")
+                break
+        f = fields_of(js_)
+        if m and f:
+            fld_src.setdefault(m, set()).add(src(f[0]))
     pairing = None
     for s in pre:
         if isinstance(s.value, ast.Subscript) and isinstance(s.value.slice, ast.Constant) and s.value.slice.value == 1 and isinstance(s.targets[0], ast.Name):
@@ -402,8 +415,8 @@ def _check(ctx: Ctx) -> None:
                   construct=f"no separate {pr} token is emitted when {pr.lower()} is not fused",
                   message=f"{len(sep)} emission(s) in the note branch: detokenise would keep using the running {pr.lower()} of an earlier note", file=fe.file,
                   node=sep[0] if sep else note_if)
-        fused = [n for n in ast.walk(note_if) if isinstance(n, ast.AugAssign) and isinstance(n.value, ast.JoinedStr)
-                 and any(isinstance(v, ast.FormattedValue) and enum_member(v.value, "TokenisationPrefixes") == pr for v in n.value.values)]
+        fused = [n for n, js_ in fused_part_sites(note_if)
+                 if any(isinstance(v, ast.FormattedValue) and enum_member(v.value, "TokenisationPrefixes") == pr for v in js_.values)]
         okf = False
         for n in fused:
             pcs = path_conditions(n, note_if)
@@ -433,7 +446,12 @@ def _check(ctx: Ctx) -> None:
               message=f"{[short(n.test) for n in ts_ifs]}", file=fe.file, node=ts_ifs[0] if ts_ifs else loop)
     for pr_site, lst in (("PITCH", sites.get("PITCH", [])),):
         pass
-    note_tokens = [c for c in ast.walk(note_if) if isinstance(c, ast.Call) and call_method(c)[1] == "append" and c.args and isinstance(c.args[0], ast.Name)]
+    res_name = result_name if "result_name" in dir() else None
+    joined_ = {c.args[0].id for c in ast.walk(note_if) if isinstance(c, ast.Call) and call_method(c)[1] == "join" and c.args and isinstance(c.args[0], ast.Name)}
+    # the note token: a name appended to the result, or the parts joined on the spot (`tokens.append("-".join(parts))`)
+    note_tokens = [c for c in ast.walk(note_if) if isinstance(c, ast.Call) and call_method(c)[1] == "append" and c.args
+                   and isinstance(call_method(c)[0], ast.Name) and call_method(c)[0].id not in joined_
+                   and (isinstance(c.args[0], ast.Name) or (isinstance(c.args[0], ast.Call) and call_method(c.args[0])[1] == "join"))]
     ctx.check(any(not path_conditions(c, note_if) for c in note_tokens), "DISPATCH", "tokenise: every note appends its note token unconditionally", function=fe.qualname,
               construct="the note token of a note is not appended on every path of the note branch", message=f"{[short(c) for c in note_tokens]}",
               file=fe.file, node=note_if)
